@@ -9,7 +9,7 @@
 //! side (4 in the thorough tier) under every schedule with <= 2 (quick) / 3 (thorough) deviations; the event trace of every
 //! execution must be accepted by the NFA (and end in a state where both sides have ended).
 //!
-//! Part 3, model -> implementation: every path of the TLC graph of <= 8 steps (quick) / every maximal path (thorough)
+//! Part 3, model -> implementation: every path of the TLC graph of <= 6 (quick) / 8 (thorough) steps
 //! is projected to a script pair + schedule and replayed step by step; the events the real code
 //! produces in each step must equal the events the model action stands for.
 #[path = "../twoparty.rs"]
@@ -34,6 +34,8 @@ enum Act {
     Reply,
     Release,
     Abort,
+    /// send one PDU of an unrecognised type (at most once per script, as in the model)
+    Garbage,
 }
 impl Act {
     fn name(self) -> &'static str {
@@ -43,6 +45,7 @@ impl Act {
             Act::Reply => "reply",
             Act::Release => "release",
             Act::Abort => "abort",
+            Act::Garbage => "garbage",
         }
     }
 }
@@ -56,7 +59,7 @@ fn script_name(s: &[Act]) -> String {
 
 /// every script of <= `n` actions; release and abort consume the association, so they come last
 fn scripts(n: usize) -> Vec<Vec<Act>> {
-    let cont = [Act::Send, Act::Recv, Act::Reply];
+    let cont = [Act::Send, Act::Recv, Act::Reply, Act::Garbage];
     let term = [Act::Release, Act::Abort];
     let mut out: Vec<Vec<Act>> = vec![vec![]];
     let mut open: Vec<Vec<Act>> = vec![vec![]];
@@ -77,7 +80,11 @@ fn scripts(n: usize) -> Vec<Vec<Act>> {
         }
         open = next;
     }
+    out.retain(|s| s.iter().filter(|a| **a == Act::Garbage).count() <= 1);
     out
+}
+fn garbage_pdu() -> Pdu {
+    Pdu::Unknown { pdu_type: 0x99, data: vec![1, 2, 3, 4] }
 }
 
 fn kind_of(p: &Pdu) -> &'static str {
@@ -185,6 +192,13 @@ fn run_sync<T: SyncAssociation<SyncEnd>>(sh: &Arc<Shared>, s: usize, assoc: T, s
                 sh.event(ret(s, "abort", &r));
                 broke = true;
             }
+            Act::Garbage => {
+                let r = SyncAssociation::send(assoc.as_mut().unwrap(), &garbage_pdu());
+                sh.event(ret(s, "send", &r));
+                if r.is_err() {
+                    broke = true;
+                }
+            }
         }
         if broke {
             break;
@@ -246,6 +260,13 @@ async fn run_async<T: AsyncAssociation<AsyncEnd> + Send>(sh: Arc<Shared>, s: usi
                 let r = AsyncAssociation::abort(assoc.take().unwrap()).await;
                 sh.event(ret(s, "abort", &r));
                 broke = true;
+            }
+            Act::Garbage => {
+                let r = AsyncAssociation::send(assoc.as_mut().unwrap(), &garbage_pdu()).await;
+                sh.event(ret(s, "send", &r));
+                if r.is_err() {
+                    broke = true;
+                }
             }
         }
         if broke {
@@ -554,6 +575,7 @@ fn part2(check: &Check, model: &Model) {
 fn act_of(e: &Edge) -> Option<Act> {
     Some(match e.act.as_str() {
         "SendData" => Act::Send,
+        "SendUnk" => Act::Garbage,
         "Recv" | "RecvEof" => Act::Recv,
         "ReleaseReq" => Act::Release,
         "Rsp" => Act::Reply,
@@ -639,7 +661,7 @@ fn replay_path(is_async: bool, model: &Model, path: &[(u32, usize)]) -> Result<(
 }
 
 fn part3(check: &Check, model: &Model) {
-    let k = check.pick(8, 12);
+    let k = check.pick(6, 8);
     // all paths of <= k steps that cannot be extended within k, as (node, edge index) lists
     let mut paths: Vec<Vec<(u32, usize)>> = vec![];
     fn rec(m: &Model, n: u32, k: usize, acc: &mut Vec<(u32, usize)>, out: &mut Vec<Vec<(u32, usize)>>) {
@@ -717,13 +739,13 @@ fn main() {
     let check = Check::from_args("C30", Level::ModelChecking);
     let model = Model::load(check.verif_root());
     check.set_rule(
-        "Part 1: TLC explores tla/Assoc.tla (two peers, FIFO channels, <= 4 API actions per side) completely and checks \
+        "Part 1: TLC explores tla/Assoc.tla (two peers, FIFO channels, <= 4 API actions per side, PDU kinds DATA/RRQ/RRP/ABORT/unknown) completely and checks \
          invariants I1-I5 in general and in conforming-SCP mode (one run, the initial state fixes the mode; pre-step; numbers under `tlc`). \
-         Part 2: every pair of scripts of <= 3 (quick) / 4 (thorough) actions per side over {send P-DATA, receive, reply to a release request, \
-         release(), abort(); then drop} x {sync, async API} x every schedule with <= 2 (quick) / 3 (thorough) deviations \
+         Part 2: every pair of scripts of <= 3 (quick) / 4 (thorough) actions per side over {send P-DATA, send a PDU of unknown type (at most once), receive, reply to a release \
+         request, release(), abort(); then drop} x {sync, async API} x every schedule with <= 2 (quick) / 3 (thorough) deviations \
          (other peer first, 1-byte delivery, Pending at a write/shutdown); an execution is one evaluation; it is non-trivial \
          when it produced an event trace, distinct by (api, trace); each trace must be a behaviour of the automaton built \
-         from TLC's dumped graph. Part 3: every path of that graph of <= 8 steps (quick) / every maximal path (thorough, <= 12 steps) that cannot be \
+         from TLC's dumped graph. Part 3: every path of that graph of <= 6 (quick) / 8 (thorough) steps that cannot be \
          extended within the bound is replayed step by step on real associations and must produce exactly the model's \
          events in every step (traces_validated_against_impl). `states`/`transitions` are the distinct model states and \
          transitions the Rust side actually drove the implementation through in part 3; TLC's own totals are under `tlc`.",
